@@ -7,6 +7,7 @@ import (
 	"log/slog"
 	"os"
 	"testing"
+	"time"
 
 	"pgregory.net/rapid"
 	"vh/drive"
@@ -33,6 +34,11 @@ type Case struct {
 	Victim int        `json:"victim"` // index into Stream.Segs of a valid frame
 	Faults []Fault    `json:"faults"`
 	InCap  int        `json:"in_cap"`
+	// PauseMs > 0: the source pauses that long in the middle of the segment that follows the victim (or, with
+	// PauseInVictim, in the middle of the victim itself).  The neighbour must come through all the same.
+	PauseMs       int  `json:"pause_ms"`
+	PauseInVictim bool `json:"pause_in_victim"`
+	OutCap        int  `json:"out_cap"`
 }
 
 func compare(res drive.Result, want []gen.Expect, input []byte) (string, error) {
@@ -95,7 +101,32 @@ func check(c Case, o *stats.Obs) error {
 	if !ok {
 		stats.HarnessBug("C12 expectation and reference framer disagree on stream %x", input)
 	}
-	res := drive.Run(drive.NewHandler(slog.LevelInfo), input, drive.Options{InCap: c.InCap, OutCap: 1})
+	opt := drive.Options{InCap: c.InCap, OutCap: 1}
+	if c.OutCap > 1 {
+		opt.OutCap = c.OutCap // a buffered output channel, which the consumer below lets fill up
+		opt.ConsumerPause = func(i int) {
+			if i == 1 {
+				time.Sleep(5 * time.Millisecond)
+			}
+		}
+		o.Class("buffered-output-consumer-behind")
+	}
+	if c.PauseMs > 0 {
+		off := 0
+		for i, g := range s.Segs {
+			if (c.PauseInVictim && i == c.Victim) || (!c.PauseInVictim && i == c.Victim+1) {
+				at := off + len(g.Data)/2
+				opt.ProducerPause = func(k int) {
+					if k == at {
+						time.Sleep(time.Duration(c.PauseMs) * time.Millisecond)
+					}
+				}
+				o.Class("source-pauses-near-the-victim")
+			}
+			off += len(g.Data)
+		}
+	}
+	res := drive.Run(drive.NewHandler(slog.LevelInfo), input, opt)
 	if key, err := compare(res, want, input); err != nil {
 		o.Key = key
 		return fmt.Errorf("victim segment %d (%x corrupted to %x): %v", c.Victim, orig, v, err)
@@ -272,7 +303,16 @@ func gen1(t *rapid.T) Case {
 			faults = append(faults, Fault{Off: off, Xor: byte(rapid.IntRange(1, 255).Draw(t, "xor"))})
 		}
 	}
-	return Case{Stream: s, Victim: victim, Faults: faults, InCap: rapid.SampledFrom([]int{0, 16, 4096}).Draw(t, "inCap")}
+	c := Case{Stream: s, Victim: victim, Faults: faults, InCap: rapid.SampledFrom([]int{0, 16, 4096}).Draw(t, "inCap")}
+	if rapid.IntRange(0, 399).Draw(t, "pause") == 211 { // rare: each costs real time
+		c.PauseMs = 300
+		c.PauseInVictim = rapid.IntRange(0, 3).Draw(t, "pauseInVictim") == 0
+		c.InCap = 0
+	}
+	if rapid.IntRange(0, 19).Draw(t, "bufferedOut") == 14 {
+		c.OutCap = rapid.SampledFrom([]int{2, 3, 8}).Draw(t, "outCap")
+	}
+	return c
 }
 
 var prop = stats.Prop(R, "fault", gen1, check)
